@@ -33,7 +33,7 @@ def gen_life(rng, exe):
     for i in range(n):
         m = "t%d" % i
         k = rng.choice(["sleep", "sleep", "thread", "thread-nowait", "proc-wait", "execute", "pipe", "supervisor", "cancelled-sleep", "cancelled-read", "deadline-expired",
-                        "deadline-ok", "gather-fail", "chain", "channel-pair", "thread-chan"])
+                        "deadline-ok", "gather-fail", "chain", "channel-pair", "thread-chan", "thread-burst"])
         kinds_used.add(k)
         d = rng.choice([0, 0.001, 0.005, 0.02])
         if k == "sleep":
@@ -42,6 +42,14 @@ def gen_life(rng, exe):
         elif k == "thread":
             lines.append("(ev/spawn (def r (ev/thread (fn [&] (os/sleep %s) 7))) (mark \"%s\"))" % (d, m))
             expect.add(m)
+        elif k == "thread-burst":
+            # many cross-thread completions arrive while this thread is not polling (blocked in os/sleep): all of them must still be delivered
+            nb = rng.choice([20, 33, 48])
+            lines.append("(for k 0 %d (ev/spawn (ev/thread (fn [&] (os/sleep 0.01) 7)) (mark (string \"%s-\" k))))" % (nb, m))
+            lines.append("(ev/spawn (ev/sleep 0.002) (os/sleep 0.12) (mark \"%s-blocker\"))" % m)
+            for kk in range(nb):
+                expect.add("%s-%d" % (m, kk))
+            expect.add(m + "-blocker")
         elif k == "thread-nowait":
             lines.append("(def tc%d (ev/thread-chan 1)) (ev/thread (fn [&] (os/sleep %s) (ev/give tc%d :done)) nil :n) (ev/spawn (ev/take tc%d) (mark \"%s\"))" % (i, d, i, i, m))
             expect.add(m)
@@ -185,6 +193,8 @@ def run(ctx):
 
     def life(i):
         rng = random.Random(ctx.sub_seed("life", i))
+        if hangs[0] >= 6:
+            return      # enough confirmed hangs to report; every further one costs two watchdog periods
         script, expect, forbid, kinds = gen_life(rng, exe)
         d = core.case_dir()
         path = os.path.join(d, "life.janet")
@@ -199,6 +209,7 @@ def run(ctx):
             core.discard(res2)
             marks2 = set(l[5:].strip() for l in res2.out.decode(errors="replace").splitlines() if l.startswith("MARK "))
             if res2.timed_out:
+                hangs[0] += 1
                 if expect <= marks2:
                     ctx.violation("hang-after-work-done:" + "+".join(sorted(kinds))[:80], "all %d expected markers printed but the process did not exit (twice)" % len(expect), files)
                 else:
@@ -223,6 +234,7 @@ def run(ctx):
         ctx.count("life_programs")
         ctx.sample({"kinds": sorted(kinds), "markers": len(expect)}, cap=3)
 
+    hangs = [0]
     core.pmap(life, range(nlife), jobs=8)
 
     # ---- boundedness
